@@ -825,8 +825,10 @@ func (s *State) extendFunctionEnv(
 		// By definition function parameters are local copies, deref argument values:
 		pval := object.Value(args[paramIdx])
 		needVariable := true
-		// Constants can't be (re)bound: no register for those so CreateOrSet below reports the error.
-		if !s.NoReg && pval.Type() == object.INTEGER && !object.Constant(param.Value().Literal()) {
+		// Constants and the names of extension functions can't be (re)bound: no register for those so CreateOrSet
+		// below reports the error.
+		if !s.NoReg && pval.Type() == object.INTEGER && !object.Constant(param.Value().Literal()) &&
+			!object.IsExtraFunction(param.Value().Literal()) {
 			// We will release all these registers just by returning/dropping the env.
 			_, nbody, ok := setupRegister(env, param.Value().Literal(), pval.(object.Integer).Value, newBody)
 			if ok {
@@ -998,7 +1000,7 @@ func (s *State) evalForInteger(fe *ast.ForExpression, start *int64, end int64, n
 	var newBody ast.Node
 	var register object.Register
 	newBody = fe.Body
-	if name != "" && !s.NoReg && s.env.HasRegisters() && !object.Constant(name) {
+	if name != "" && !s.NoReg && s.env.HasRegisters() && !object.Constant(name) && !object.IsExtraFunction(name) {
 		var ok bool
 		register, newBody, ok = setupRegister(s.env, name, int64(startValue), fe.Body)
 		// Release on every way out of the loop (break, return, error, panic), not just normal completion.
